@@ -17,6 +17,22 @@ CLAIMED["C09"] = dict(
     text="Kernel-checked: for EVERY sequence of per-round classifications, the update-handler table (handlerStep, the definition the executable model runs) delivers Initialised exactly once first, Changed exactly at the later rounds classified changed, one Invalidated and nothing after (closed form, by induction over the sequence); a node with an observer is never classified Unnecessary; a round is classified Changed iff changed_at is that stabilisation (no Changed for an unchanged value). The engine model is tied to /repo by running both on generated histories (channels api, ev, read) and the sequence predicate holds_C09 is evaluated by the Lean driver on the implementation's own trace. Not yet proved: that the engine queues every node with handlers whenever it changes (covered by correspondence only).",
     note=ENGINE_NOTE,
     ref="DESIGN.md §6 C09")
+CLAIMED["C04"] = dict(
+    technique="Lean 4 theorems (panic-site guards for the non-cascading API calls; C04_partial) + differential correspondence in debug and release builds + Lean predicate (no panic) on the implementation's trace",
+    text="Partial proof, full differential check. Kernel-checked for EVERY model state: disallow_future_use, unsubscribe, subscribe on live observers, node construction and var writes during stabilise never panic; var writes outside stabilise do not panic in release builds under stated conditions; the handler table never hands Unnecessary to a subscription; set_height panics exactly above the limit. NOT proved: the panic sites inside stabilise's cascades (listed in Props/C04.lean). Every run drives generated well-formed histories (WellFormed is a decidable Lean predicate, evaluated on every history) through the real crate in BOTH build profiles with catch_unwind around every action, compares with the model (which carries every assert/unwrap/debug_assert as an explicit panic outcome) and evaluates holds_C04.",
+    note=ENGINE_NOTE, ref="DESIGN.md §6 C04")
+CLAIMED["C07"] = dict(
+    technique="Lean 4 frame theorems (reads unchanged by every non-stabilise action, for all states) + differential correspondence + Lean predicate on the implementation's reads after every action and from inside closures",
+    text="Kernel-checked for EVERY model state satisfying two preserved well-formedness invariants: an observer's read depends only on alive/status/its record/node values; var writes (all five, also when they panic), node construction (every instruction), set_cutoff, subscribe/unsubscribe and observing leave every existing observer's read unchanged; a new observer reads NeverStabilised; while status = Stabilising every read is CurrentlyStabilising (C10.read_stabilising). The 'one snapshot at the end of stabilise' half is C01+C08 and is covered by correspondence/predicates, not yet by a theorem. Reads of all observers are compared after every action and from inside node functions and handlers.",
+    note=ENGINE_NOTE, ref="DESIGN.md §6 C07")
+CLAIMED["C08"] = dict(
+    technique="Lean 4 theorems (closed-form run equations of writeVar inside/outside stabilise, composition of deferred writes, application in stabilise_end) + differential correspondence + Lean predicate on the implementation's trace",
+    text="Kernel-checked for EVERY model state: outside stabilise each of the five writes updates the logical value at once, returns the old value, stamps and queues the watch node exactly when necessary; inside stabilise the committed value is untouched (every reader sees the pre-stabilise value), deferred writes compose in program order for any list of writes, and stabilise_end applies them after the counter bump (value, pending, set_at characterised for the general stack). Tied to /repo by differential runs (profile varw: writes from node functions and handlers) and holds_C08 on the implementation's trace. Termination of user fixed-point loops is not claimed.",
+    note=ENGINE_NOTE, ref="DESIGN.md §6 C08")
+CLAIMED["C10"] = dict(
+    technique="Lean 4 theorems (read table, lifecycle transitions, frame for other observers; all states) + differential correspondence + Lean lifecycle predicate on the implementation's answers",
+    text="Kernel-checked for EVERY model state: the complete read table by lifecycle state; disallow_future_use never panics, moves created→unlinked / inUse→disallowed, is idempotent and leaves every other observer's record and read unchanged; subscribe fails with Disallowed on ended observers and succeeds otherwise; unsubscribe with a foreign token is Mismatch with the state unchanged; none of the calls changes another observer's lifecycle state. The created→inUse and disallowed→unlinked transitions inside stabilise and the clone counting of the public handle are covered by correspondence (profile life) and holds_C10, not yet by theorems.",
+    note=ENGINE_NOTE, ref="DESIGN.md §6 C10")
 ALL = ["C%02d" % i for i in range(1, 21)]
 NOT_YET = "no check registered at this commit: the model component for this property is still under construction (see DESIGN.md §9 order of work); nothing is claimed"
 
